@@ -47,6 +47,8 @@ def plan(tier, seed):
         cnt = cnt if q else cnt * 8
         for i in range(8):
             t.append(("partial", n, cnt // 8, seed * 100 + i))
+    if tier == "thorough":
+        t.append(("repo-tests",))
     random.Random(seed).shuffle(t)
     return t
 
@@ -100,6 +102,21 @@ def run_case(p, ops, code, n, exists=None):
 
 
 def work(task):
+    if task[0] == "repo-tests":
+        # the repository's own tests as one more workload, with the contracts attached
+        p = Partial()
+        r = contracts.run_repo_tests(('layer',), ['test_find_local_clifford_layer.py', 'test_examples.py'])
+        if r is None:
+            p.counters["repository tests under contracts: could not run"] += 1
+            return p
+        log, evals, status = r
+        p.evals += sum(v for k, v in evals.items() if "out-of-domain" not in k)
+        p.counters["repository tests under contracts: contract evaluations"] += sum(evals.values())
+        for v in log:
+            if v["contract"].startswith(('find_local_clifford_layer', 'local_clifford_layer_to_circuit')):
+                p.violate("under-repo-tests " + v["contract"] + " " + v.get("tag", ""), v["what"] + " (while running the repository's own tests)", dict(v.get("case") or {}, repo_tests=True))
+        p.extra["contract_evals"] = __import__("collections").Counter({k: v for k, v in evals.items()})
+        return p
     contracts.take()
     p = Partial()
     kind = task[0]
